@@ -3,12 +3,14 @@
 # ./check.sh replay <path>                     re-run one saved failing case
 # Rebuilds the orchestrator (cached, < 1 s) and delegates to it.
 set -u
-cd /verif/harness || exit 2
+ROOT=$(cd "$(dirname "$0")" && pwd)
+export VERIF_DIR="$ROOT"
+cd "$ROOT/harness" || exit 2
 export GOFLAGS=-mod=mod GOPROXY=off GOSUMDB=off GOTOOLCHAIN=local GOWORK=off
-mkdir -p /verif/bin
-go build -o /verif/bin/vcheck ./cmd/vcheck || { echo "INCONCLUSIVE: cannot build vcheck" >&2; exit 2; }
-cd /verif
+mkdir -p "$ROOT/bin"
+go build -o "$ROOT/bin/vcheck" ./cmd/vcheck || { echo "INCONCLUSIVE: cannot build vcheck" >&2; exit 2; }
+cd "$ROOT"
 if [ "${1:-}" = "replay" ]; then
-  exec /verif/bin/vcheck replay "$2"
+  exec "$ROOT/bin/vcheck" replay "$2"
 fi
-exec /verif/bin/vcheck run "$1" --tier "${2:-${VERIF_TIER:-quick}}"
+exec "$ROOT/bin/vcheck" run "$1" --tier "${2:-${VERIF_TIER:-quick}}"
